@@ -506,6 +506,7 @@ func runC01(ctx *core.Ctx) {
 		c01UnicityLoop(ctx) // the seq / keys loop of enforceUnicity (c01_unicity.go)
 		c01Pipe(ctx, sch, rich) // the composed stage models vs LoadModelWithContext (c01_pipe.go)
 		c01Files(ctx)           // env_file / label_file resolution on a faulty disk (c01_files.go)
+		c01FilesProject(ctx)    // … over all services of a project, any visit order (c01_files_project.go)
 		c01PipeFS(ctx)          // the composed pipeline with cross-file extends vs LoadModelWithContext (c01_pipefs.go)
 	}
 	if only == "" || only == "schema" {
@@ -519,6 +520,7 @@ func runC01(ctx *core.Ctx) {
 	}
 	if only == "files" {
 		c01Files(ctx)
+		c01FilesProject(ctx)
 	}
 	if only == "pipefs" {
 		c01PipeFS(ctx)
